@@ -1,4 +1,1022 @@
+/-
+C35  Shared LRU caches are safe under concurrency.
+
+Sequential part: the pointer-level model of `LRUCache` (map key ↦ element, recency list of
+elements) refines the capacity-bounded recency list `SCache`, for every capacity
+`1 ≤ cap < 2^63` (and `0`, which the constructor replaces by 20) and every Get/Put sequence.
+Concurrent part: with the lock table of the Go methods (`lockTable`, re-extracted from the
+source by the harness on every run), every concurrent execution under the RWMutex semantics
+of Lib.Monitor is equivalent to the sequential model run in release order.
+-/
 import Gossamer.Model.C35
 import Gossamer.Lib.Monitor
 namespace Gossamer.C35
+
+/-! ### list helpers -/
+
+def kv (e : Elem) : Nat × Nat := (e.key, e.val)
+
+theorem find_key_cons_eq {a : Elem} {as : List Elem} {k : Nat} (h : a.key = k) :
+    (a :: as).find? (·.key == k) = some a := by simp [List.find?_cons, h]
+
+theorem find_key_cons_ne {a : Elem} {as : List Elem} {k : Nat} (h : a.key ≠ k) :
+    (a :: as).find? (·.key == k) = as.find? (·.key == k) := by
+  have : (a.key == k) = false := by simpa using h
+  simp [List.find?_cons, this]
+
+theorem filter_key_cons_eq {a : Elem} {as : List Elem} {k : Nat} (h : a.key = k) :
+    (a :: as).filter (·.key != k) = as.filter (·.key != k) := by simp [List.filter_cons, h]
+
+theorem filter_key_cons_ne {a : Elem} {as : List Elem} {k : Nat} (h : a.key ≠ k) :
+    (a :: as).filter (·.key != k) = a :: as.filter (·.key != k) := by simp [List.filter_cons, h]
+
+theorem lookup_cons_eq (k v : Nat) (m : List (Nat × Nat)) : List.lookup k ((k, v) :: m) = some v := by
+  simp [List.lookup_cons]
+
+theorem lookup_cons_ne {k a1 : Nat} (v : Nat) (m : List (Nat × Nat)) (h : k ≠ a1) :
+    List.lookup k ((a1, v) :: m) = List.lookup k m := by
+  have : (k == a1) = false := by simpa using h
+  simp [List.lookup_cons, this]
+
+theorem mapDelete_cons_eq (a1 a2 : Nat) (m : List (Nat × Nat)) :
+    mapDelete ((a1, a2) :: m) a1 = mapDelete m a1 := by simp [mapDelete, List.filter_cons]
+
+theorem mapDelete_cons_ne {a1 k : Nat} (a2 : Nat) (m : List (Nat × Nat)) (h : a1 ≠ k) :
+    mapDelete ((a1, a2) :: m) k = (a1, a2) :: mapDelete m k := by simp [mapDelete, List.filter_cons, h]
+
+theorem lookup_some_of_mem {m : List (Nat × Nat)} {k : Nat} (h : k ∈ m.map (·.1)) :
+    ∃ w, m.lookup k = some w := by
+  induction m with
+  | nil => cases h
+  | cons b bs ih =>
+    obtain ⟨b1, b2⟩ := b
+    by_cases hb : k = b1
+    · subst hb; exact ⟨b2, lookup_cons_eq _ _ _⟩
+    · simp only [List.map_cons, List.mem_cons] at h
+      rcases h with h | h
+      · exact absurd h hb
+      · obtain ⟨w, hw⟩ := ih h
+        exact ⟨w, by rw [lookup_cons_ne _ _ hb, hw]⟩
+
+theorem find_key_prop {l : List Elem} {k : Nat} {e : Elem}
+    (h : l.find? (·.key == k) = some e) : e.key = k ∧ e ∈ l := by
+  have h1 := List.find?_some h
+  have h2 := List.mem_of_find?_eq_some h
+  exact ⟨by simpa using h1, h2⟩
+
+theorem find_key_none {l : List Elem} {k : Nat}
+    (h : l.find? (·.key == k) = none) : k ∉ l.map (·.key) := by
+  intro hm
+  rw [List.find?_eq_none] at h
+  obtain ⟨e, he, hk⟩ := List.mem_map.mp hm
+  exact h e he (by simp [hk])
+
+theorem find_key_some_of_mem {l : List Elem} {k : Nat} (h : k ∈ l.map (·.key)) :
+    ∃ e, l.find? (·.key == k) = some e := by
+  cases hf : l.find? (·.key == k) with
+  | some e => exact ⟨e, rfl⟩
+  | none => exact absurd h (find_key_none hf)
+
+/-- distinct ids: an element is determined by its id -/
+theorem id_inj {l : List Elem} (hn : (l.map (·.id)).Nodup) {x y : Elem}
+    (hx : x ∈ l) (hy : y ∈ l) (h : x.id = y.id) : x = y := by
+  induction l with
+  | nil => cases hx
+  | cons a as ih =>
+    simp only [List.map_cons, List.nodup_cons, List.mem_map, not_exists, not_and] at hn
+    rcases List.mem_cons.mp hx with rfl | hx' <;> rcases List.mem_cons.mp hy with rfl | hy'
+    · rfl
+    · exact absurd h.symm (hn.1 y hy')
+    · exact absurd h (hn.1 x hx')
+    · exact ih hn.2 hx' hy'
+
+theorem find_id_of_mem {l : List Elem} (hn : (l.map (·.id)).Nodup) {e : Elem} (he : e ∈ l) :
+    l.find? (·.id == e.id) = some e := by
+  induction l with
+  | nil => cases he
+  | cons a as ih =>
+    simp only [List.map_cons, List.nodup_cons, List.mem_map, not_exists, not_and] at hn
+    rcases List.mem_cons.mp he with rfl | he'
+    · simp
+    · have : a.id ≠ e.id := fun h => hn.1 e he' h.symm
+      simp [List.find?_cons, this, ih hn.2 he']
+
+theorem filter_key_id {l : List Elem} {k : Nat} (h : k ∉ l.map (·.key)) :
+    l.filter (·.key != k) = l := by
+  rw [List.filter_eq_self]
+  intro a ha
+  have : a.key ≠ k := fun hk => h (List.mem_map.mpr ⟨a, ha, hk⟩)
+  simpa using this
+
+/-- removing the element found under key `k` by pointer = dropping key `k` -/
+theorem eraseP_id_eq_filter {l : List Elem} (hi : (l.map (·.id)).Nodup) (hk : (l.map (·.key)).Nodup)
+    {k : Nat} {e : Elem} (hf : l.find? (·.key == k) = some e) :
+    l.eraseP (·.id == e.id) = l.filter (·.key != k) := by
+  induction l with
+  | nil => cases hf
+  | cons a as ih =>
+    simp only [List.map_cons, List.nodup_cons] at hi hk
+    by_cases hak : a.key = k
+    · have : e = a := by simpa [List.find?_cons, hak] using hf.symm
+      subst this
+      have hnot : k ∉ as.map (·.key) := hak ▸ hk.1
+      simp [List.eraseP_cons, hak, filter_key_id hnot]
+    · have hf' : as.find? (·.key == k) = some e := by simpa [List.find?_cons, hak] using hf
+      have he := (find_key_prop hf').2
+      have hne : a.id ≠ e.id := fun h => hi.1 (List.mem_map.mpr ⟨e, he, h.symm⟩)
+      simp [List.eraseP_cons, hne, hak, ih hi.2 hk.2 hf']
+
+theorem lookup_map_kv (l : List Elem) (k : Nat) :
+    (l.map kv).lookup k = (l.find? (·.key == k)).map (·.val) := by
+  induction l with
+  | nil => rfl
+  | cons a as ih =>
+    by_cases h : a.key = k
+    · simp [kv, List.lookup_cons, List.find?_cons, h]
+    · have h' : (k == a.key) = false := by simpa using fun hh => h hh.symm
+      simp [kv, List.lookup_cons, h, h', ← ih]
+
+theorem map_kv_filter (l : List Elem) (k : Nat) :
+    (l.filter (·.key != k)).map kv = (l.map kv).filter (·.1 != k) := by
+  rw [List.filter_map]; rfl
+
+theorem find_key_filter_ne (l : List Elem) {k k' : Nat} (h : k' ≠ k) :
+    (l.filter (·.key != k)).find? (·.key == k') = l.find? (·.key == k') := by
+  induction l with
+  | nil => rfl
+  | cons a as ih =>
+    by_cases hak : a.key = k
+    · have hk' : a.key ≠ k' := fun hh => h (by rw [← hh, hak])
+      rw [filter_key_cons_eq hak, find_key_cons_ne hk', ih]
+    · rw [filter_key_cons_ne hak]
+      by_cases h2 : a.key = k'
+      · rw [find_key_cons_eq h2, find_key_cons_eq h2]
+      · rw [find_key_cons_ne h2, find_key_cons_ne h2, ih]
+
+theorem find_key_filter_eq (l : List Elem) (k : Nat) :
+    (l.filter (·.key != k)).find? (·.key == k) = none := by
+  rw [List.find?_eq_none]
+  intro a ha
+  have := (List.mem_filter.mp ha).2
+  simpa using this
+
+theorem setVal_cons (a : Elem) (as : List Elem) (i v : Nat) :
+    setVal (a :: as) i v = (if a.id = i then { a with val := v } else a) :: setVal as i v := rfl
+
+theorem setVal_id {l : List Elem} {i v : Nat} (h : i ∉ l.map (·.id)) : setVal l i v = l := by
+  induction l with
+  | nil => rfl
+  | cons a as ih =>
+    simp only [List.map_cons, List.mem_cons, not_or] at h
+    have : a.id ≠ i := fun hh => h.1 hh.symm
+    rw [setVal_cons, ih h.2]; simp [this]
+
+theorem setVal_find {l : List Elem} (hi : (l.map (·.id)).Nodup) {e : Elem} (he : e ∈ l) (v : Nat) :
+    (setVal l e.id v).find? (·.id == e.id) = some { e with val := v } := by
+  induction l with
+  | nil => cases he
+  | cons a as ih =>
+    simp only [List.map_cons, List.nodup_cons, List.mem_map, not_exists, not_and] at hi
+    rw [setVal_cons]
+    rcases List.mem_cons.mp he with rfl | he'
+    · simp
+    · have : a.id ≠ e.id := fun h => hi.1 e he' h.symm
+      simp [List.find?_cons, this, ih hi.2 he']
+
+theorem setVal_eraseP {l : List Elem} (hi : (l.map (·.id)).Nodup) {e : Elem} (he : e ∈ l) (v : Nat) :
+    (setVal l e.id v).eraseP (·.id == e.id) = l.eraseP (·.id == e.id) := by
+  induction l with
+  | nil => cases he
+  | cons a as ih =>
+    simp only [List.map_cons, List.nodup_cons] at hi
+    rw [setVal_cons]
+    by_cases ha : a.id = e.id
+    · have hnot : e.id ∉ as.map (·.id) := ha ▸ hi.1
+      simp [ha, List.eraseP_cons, setVal_id hnot]
+    · have he' : e ∈ as := by
+        rcases List.mem_cons.mp he with rfl | h
+        · exact absurd rfl ha
+        · exact h
+      simp [ha, List.eraseP_cons, ih hi.2 he']
+
+/-- removing the last element by pointer = `dropLast` -/
+theorem eraseP_last {l : List Elem} (hi : (l.map (·.id)).Nodup) {last : Elem}
+    (h : l.getLast? = some last) : l.eraseP (·.id == last.id) = l.dropLast := by
+  induction l with
+  | nil => cases h
+  | cons a as ih =>
+    cases as with
+    | nil =>
+      have : last = a := by simpa using h.symm
+      subst this; simp
+    | cons b bs =>
+      have h' : (b :: bs).getLast? = some last := by simpa [List.getLast?_cons_cons] using h
+      simp only [List.map_cons, List.nodup_cons] at hi
+      have hm : last ∈ b :: bs := List.mem_of_getLast? h'
+      have hne : a.id ≠ last.id := fun hh => hi.1 (by
+        have := (List.mem_map (f := fun x : Elem => x.id)).mpr ⟨last, hm, rfl⟩
+        simpa [hh] using this)
+      have := ih (by simpa using hi.2) h'
+      simp [List.eraseP_cons, hne, List.dropLast_cons₂, this]
+
+/-! ### association-list (Go map) helpers -/
+
+theorem mapDelete_id {m : List (Nat × Nat)} {k : Nat} (h : m.lookup k = none) : mapDelete m k = m := by
+  induction m with
+  | nil => rfl
+  | cons a as ih =>
+    obtain ⟨a1, a2⟩ := a
+    by_cases hk : k = a1
+    · subst hk; rw [lookup_cons_eq] at h; cases h
+    · rw [lookup_cons_ne _ _ hk] at h
+      rw [mapDelete_cons_ne _ _ (fun hh => hk hh.symm), ih h]
+
+theorem lookup_mapDelete (m : List (Nat × Nat)) (k k2 : Nat) :
+    (mapDelete m k2).lookup k = if k = k2 then none else m.lookup k := by
+  induction m with
+  | nil => simp [mapDelete]
+  | cons a as ih =>
+    obtain ⟨a1, a2⟩ := a
+    by_cases h1 : a1 = k2
+    · subst h1
+      rw [mapDelete_cons_eq, ih]
+      by_cases hk : k = a1
+      · simp [hk]
+      · simp [hk, lookup_cons_ne _ _ hk]
+    · rw [mapDelete_cons_ne _ _ h1]
+      by_cases hk : k = a1
+      · subst hk
+        simp [lookup_cons_eq, h1]
+      · rw [lookup_cons_ne _ _ hk, lookup_cons_ne _ _ hk, ih]
+
+theorem lookup_none_of_not_mem {m : List (Nat × Nat)} {k : Nat} (h : k ∉ m.map (·.1)) :
+    m.lookup k = none := by
+  cases hl : m.lookup k with
+  | none => rfl
+  | some w =>
+    exfalso
+    induction m with
+    | nil => cases hl
+    | cons a as ih =>
+      obtain ⟨a1, a2⟩ := a
+      simp only [List.map_cons, List.mem_cons, not_or] at h
+      rw [lookup_cons_ne _ _ h.1] at hl
+      exact ih h.2 hl
+
+theorem mapDelete_keys_sub (m : List (Nat × Nat)) (k : Nat) :
+    ((mapDelete m k).map (·.1)).Sublist (m.map (·.1)) :=
+  (List.filter_sublist (l := m)).map _
+
+theorem not_mem_mapDelete (m : List (Nat × Nat)) (k : Nat) : k ∉ (mapDelete m k).map (·.1) := by
+  intro h
+  obtain ⟨a, ha, hk⟩ := List.mem_map.mp h
+  have := (List.mem_filter.mp ha).2
+  simp [hk] at this
+
+theorem length_mapDelete {m : List (Nat × Nat)} (hn : (m.map (·.1)).Nodup) {k v : Nat}
+    (h : m.lookup k = some v) : (mapDelete m k).length + 1 = m.length := by
+  induction m with
+  | nil => cases h
+  | cons a as ih =>
+    obtain ⟨a1, a2⟩ := a
+    simp only [List.map_cons, List.nodup_cons] at hn
+    by_cases hk : k = a1
+    · subst hk
+      rw [mapDelete_cons_eq, mapDelete_id (lookup_none_of_not_mem hn.1)]
+      simp
+    · rw [lookup_cons_ne _ _ hk] at h
+      rw [mapDelete_cons_ne _ _ (fun hh => hk hh.symm)]
+      have := ih hn.2 h
+      simp only [List.length_cons]; omega
+
+/-! ### the representation invariant -/
+
+structure Inv (c : Cache) : Prop where
+  mapKeys : (c.cache.map (·.1)).Nodup
+  ids : (c.lruList.map (·.id)).Nodup
+  keys : (c.lruList.map (·.key)).Nodup
+  look : ∀ k, c.cache.lookup k = (c.lruList.find? (·.key == k)).map (·.id)
+  fresh : ∀ e ∈ c.lruList, e.id < c.nextId
+  size : c.cache.length = c.lruList.length
+
+theorem inv_new (cap : Nat) : Inv (new cap) := by
+  refine ⟨?_, ?_, ?_, ?_, ?_, ?_⟩ <;> simp [new]
+
+/-- shape of the list after touching the element `e` stored under key `k` -/
+theorem moveToFront_eq {l : List Elem} (hi : (l.map (·.id)).Nodup) (hk : (l.map (·.key)).Nodup)
+    {k : Nat} {e : Elem} (hf : l.find? (·.key == k) = some e) :
+    moveToFront l e.id = e :: l.filter (·.key != k) := by
+  have he := (find_key_prop hf).2
+  simp [moveToFront, find_id_of_mem hi he, eraseP_id_eq_filter hi hk hf]
+
+theorem moveToFront_setVal_eq {l : List Elem} (hi : (l.map (·.id)).Nodup) (hk : (l.map (·.key)).Nodup)
+    {k : Nat} {e : Elem} (hf : l.find? (·.key == k) = some e) (v : Nat) :
+    moveToFront (setVal l e.id v) e.id = { e with val := v } :: l.filter (·.key != k) := by
+  have he := (find_key_prop hf).2
+  simp [moveToFront, setVal_find hi he, setVal_eraseP hi he, eraseP_id_eq_filter hi hk hf]
+
+/-- invariant of a list obtained by moving (a possibly updated copy of) the element under key
+    `k` to the front -/
+theorem inv_touch {c : Cache} (hI : Inv c) {k : Nat} {e : Elem}
+    (hf : c.lruList.find? (·.key == k) = some e) (v : Nat) :
+    Inv { c with lruList := { e with val := v } :: c.lruList.filter (·.key != k) } := by
+  have ⟨hek, hem⟩ := find_key_prop hf
+  have hsub : (c.lruList.filter (·.key != k)).Sublist c.lruList := List.filter_sublist
+  refine ⟨hI.mapKeys, ?_, ?_, ?_, ?_, ?_⟩
+  · simp only [List.map_cons, List.nodup_cons]
+    refine ⟨?_, List.Pairwise.sublist (hsub.map _) hI.ids⟩
+    intro hm
+    obtain ⟨x, hx, hxe⟩ := List.mem_map.mp hm
+    have hx' := List.mem_filter.mp hx
+    have : x = e := id_inj hI.ids hx'.1 hem hxe
+    have h2 : (x.key != k) = true := hx'.2
+    rw [this, hek] at h2
+    simp at h2
+  · simp only [List.map_cons, List.nodup_cons]
+    refine ⟨?_, List.Pairwise.sublist (hsub.map _) hI.keys⟩
+    intro hm
+    obtain ⟨x, hx, hxe⟩ := List.mem_map.mp hm
+    have hx' : (x.key != k) = true := (List.mem_filter.mp hx).2
+    have hxe' : x.key = e.key := hxe
+    rw [hxe', hek] at hx'
+    simp at hx'
+  · intro k'
+    rw [hI.look k']
+    by_cases hkk : k' = k
+    · subst hkk
+      rw [find_key_cons_eq (show ({ e with val := v } : Elem).key = k' from hek), hf]
+      rfl
+    · have : ({ e with val := v } : Elem).key ≠ k' := fun h => hkk (by rw [← h]; exact hek)
+      rw [find_key_cons_ne this, find_key_filter_ne _ hkk]
+  · intro x hx
+    rcases List.mem_cons.mp hx with rfl | hx'
+    · exact hI.fresh e hem
+    · exact hI.fresh x (List.mem_filter.mp hx').1
+  · rw [hI.size]
+    have h1 := eraseP_id_eq_filter hI.ids hI.keys hf
+    have h2 : (c.lruList.eraseP (·.id == e.id)).length = c.lruList.length - 1 :=
+      List.length_eraseP_of_mem hem (by simp)
+    have hpos : 0 < c.lruList.length := List.length_pos_of_mem hem
+    simp only [List.length_cons, ← h1, h2]
+    omega
+
+/-! ### one step of the model against one step of the spec -/
+
+theorem abs_touch (c : Cache) (k : Nat) (e : Elem) (hek : e.key = k) (v : Nat) :
+    abs { c with lruList := { e with val := v } :: c.lruList.filter (·.key != k) } =
+      { cap := c.capacity, items := (k, v) :: (abs c).items.filter (·.1 != k) } := by
+  show ({ cap := c.capacity, items := List.map kv ({ e with val := v } :: c.lruList.filter (·.key != k)) } : SCache)
+    = { cap := c.capacity, items := (k, v) :: (c.lruList.map kv).filter (·.1 != k) }
+  rw [List.map_cons, map_kv_filter]
+  simp [kv, hek]
+
+theorem get_hit {c : Cache} (hI : Inv c) {k : Nat} {e : Elem}
+    (hf : c.lruList.find? (·.key == k) = some e) :
+    get c k = (e.val, { c with lruList := e :: c.lruList.filter (·.key != k) }) := by
+  have hl : c.cache.lookup k = some e.id := by rw [hI.look k, hf]; rfl
+  have hem := (find_key_prop hf).2
+  unfold get
+  rw [hl]
+  simp only [find_id_of_mem hI.ids hem, moveToFront_eq hI.ids hI.keys hf]
+
+theorem get_miss {c : Cache} (hI : Inv c) {k : Nat}
+    (hf : c.lruList.find? (·.key == k) = none) : get c k = (0, c) := by
+  have hl : c.cache.lookup k = none := by rw [hI.look k, hf]; rfl
+  unfold get
+  rw [hl]
+
+theorem sget_hit {c : Cache} {k : Nat} {e : Elem} (hf : c.lruList.find? (·.key == k) = some e) :
+    sget (abs c) k = (e.val, { cap := c.capacity, items := (k, e.val) :: (abs c).items.filter (·.1 != k) }) := by
+  have hs : (abs c).items.lookup k = some e.val := by
+    show List.lookup k (c.lruList.map kv) = some e.val
+    rw [lookup_map_kv, hf]; rfl
+  unfold sget
+  rw [hs]
+  rfl
+
+theorem sget_miss {c : Cache} {k : Nat} (hf : c.lruList.find? (·.key == k) = none) :
+    sget (abs c) k = (0, abs c) := by
+  have hs : (abs c).items.lookup k = none := by
+    show List.lookup k (c.lruList.map kv) = none
+    rw [lookup_map_kv, hf]; rfl
+  unfold sget
+  rw [hs]
+
+theorem get_refines {c : Cache} (hI : Inv c) (k : Nat) :
+    (get c k).1 = (sget (abs c) k).1 ∧ abs (get c k).2 = (sget (abs c) k).2 ∧ Inv (get c k).2 := by
+  cases hf : c.lruList.find? (·.key == k) with
+  | none =>
+    rw [get_miss hI hf, sget_miss hf]
+    exact ⟨rfl, rfl, hI⟩
+  | some e =>
+    have hek := (find_key_prop hf).1
+    rw [get_hit hI hf, sget_hit hf]
+    refine ⟨rfl, ?_, ?_⟩
+    · exact abs_touch c k e hek e.val
+    · exact inv_touch hI hf e.val
+
+theorem cap_ge {n cap : Nat} (h : cap < 2 ^ 63) : ((n : Int) ≥ capInt cap) ↔ n ≥ cap := by
+  simp only [capInt, h, if_true]
+  omega
+
+theorem put_hit {c : Cache} (hI : Inv c) {k : Nat} {e : Elem}
+    (hf : c.lruList.find? (·.key == k) = some e) (v : Nat) :
+    put c k v = { c with lruList := { e with val := v } :: c.lruList.filter (·.key != k) } := by
+  have hl : c.cache.lookup k = some e.id := by rw [hI.look k, hf]; rfl
+  unfold put
+  rw [hl]
+  simp only [moveToFront_setVal_eq hI.ids hI.keys hf]
+
+theorem mem_keys_iff (c : Cache) (k : Nat) : k ∈ (abs c).keys ↔ k ∈ c.lruList.map (·.key) := by
+  simp [abs, SCache.keys, List.map_map]
+
+theorem sput_hit {c : Cache} {k : Nat} {e : Elem} (hf : c.lruList.find? (·.key == k) = some e) (v : Nat) :
+    sput (abs c) k v = { cap := c.capacity, items := (k, v) :: (abs c).items.filter (·.1 != k) } := by
+  have ⟨hek, hem⟩ := find_key_prop hf
+  have hmem : k ∈ (abs c).keys := (mem_keys_iff c k).mpr (List.mem_map.mpr ⟨e, hem, hek⟩)
+  unfold sput
+  rw [if_pos hmem]
+  rfl
+
+/-- the state after inserting a fresh key: `l1`/`m1` are list and map after the optional eviction -/
+def pushNew (c : Cache) (m1 : List (Nat × Nat)) (l1 : List Elem) (k v : Nat) : Cache :=
+  { capacity := c.capacity, cache := (k, c.nextId) :: m1,
+    lruList := { id := c.nextId, key := k, val := v } :: l1, nextId := c.nextId + 1 }
+
+theorem put_new_room {c : Cache} (hI : Inv c) (hc : c.capacity < 2 ^ 63) {k : Nat}
+    (hf : c.lruList.find? (·.key == k) = none) (hroom : c.cache.length < c.capacity) (v : Nat) :
+    put c k v = pushNew c c.cache c.lruList k v := by
+  have hl : c.cache.lookup k = none := by rw [hI.look k, hf]; rfl
+  have hfull' : ¬ ((c.cache.length : Int) ≥ capInt c.capacity) := fun h => by
+    have := (cap_ge hc).mp h; omega
+  unfold put
+  rw [hl]
+  simp only [hfull', if_false, mapSet, mapDelete_id hl, pushNew]
+
+theorem put_new_evict {c : Cache} (hI : Inv c) (hc : c.capacity < 2 ^ 63) {k : Nat}
+    (hf : c.lruList.find? (·.key == k) = none) (hfull : c.cache.length ≥ c.capacity)
+    {last : Elem} (hlast : c.lruList.getLast? = some last) (v : Nat) :
+    put c k v = pushNew c (mapDelete c.cache last.key) c.lruList.dropLast k v := by
+  have hl : c.cache.lookup k = none := by rw [hI.look k, hf]; rfl
+  have hfull' : ((c.cache.length : Int) ≥ capInt c.capacity) := (cap_ge hc).mpr hfull
+  have hlk2 : (mapDelete c.cache last.key).lookup k = none := by
+    rw [lookup_mapDelete]; simp [hl]
+  unfold put
+  rw [hl]
+  simp only [hfull', if_true, hlast, mapSet, listRemove, eraseP_last hI.ids hlast,
+    mapDelete_id hlk2, pushNew]
+
+theorem put_new_empty {c : Cache} (hI : Inv c) (hc : c.capacity < 2 ^ 63) {k : Nat}
+    (hnil : c.lruList = []) (v : Nat) :
+    put c k v = pushNew c [] [] k v := by
+  have hcn : c.cache = [] := by
+    have := hI.size; rw [hnil] at this; simpa using this
+  unfold put
+  rw [hcn, hnil]
+  simp only [List.lookup_nil, List.getLast?_nil, mapSet, mapDelete, pushNew]
+  split <;> simp [hcn, hnil]
+
+theorem sput_new {c : Cache} {k : Nat} (hf : c.lruList.find? (·.key == k) = none) (v : Nat) :
+    sput (abs c) k v = { cap := c.capacity, items := (k, v) ::
+      (if (abs c).items.length ≥ c.capacity then (abs c).items.dropLast else (abs c).items) } := by
+  have hmem : k ∉ (abs c).keys := fun h => find_key_none hf ((mem_keys_iff c k).mp h)
+  unfold sput
+  rw [if_neg hmem]
+  rfl
+
+theorem abs_pushNew (c : Cache) (m1 : List (Nat × Nat)) (l1 : List Elem) (k v : Nat) :
+    abs (pushNew c m1 l1 k v) = { cap := c.capacity, items := (k, v) :: l1.map (fun e => (e.key, e.val)) } := rfl
+
+/-- invariant after inserting a fresh key into a consistent (map, list) pair -/
+theorem inv_pushNew (c : Cache) (m1 : List (Nat × Nat)) (l1 : List Elem) (k v : Nat)
+    (h1 : (m1.map (·.1)).Nodup) (h2 : (l1.map (·.id)).Nodup) (h3 : (l1.map (·.key)).Nodup)
+    (h4 : ∀ k', m1.lookup k' = (l1.find? (·.key == k')).map (·.id))
+    (h5 : ∀ e ∈ l1, e.id < c.nextId) (h6 : m1.length = l1.length)
+    (hk : k ∉ l1.map (·.key)) : Inv (pushNew c m1 l1 k v) := by
+  have hkm : k ∉ m1.map (·.1) := by
+    intro hm
+    obtain ⟨w, hw⟩ := lookup_some_of_mem hm
+    rw [h4 k] at hw
+    cases hfk : l1.find? (·.key == k) with
+    | none => rw [hfk] at hw; cases hw
+    | some e => exact hk (List.mem_map.mpr ⟨e, (find_key_prop hfk).2, (find_key_prop hfk).1⟩)
+  refine ⟨?_, ?_, ?_, ?_, ?_, ?_⟩
+  · simp only [pushNew, List.map_cons, List.nodup_cons]
+    exact ⟨hkm, h1⟩
+  · simp only [pushNew, List.map_cons, List.nodup_cons]
+    refine ⟨?_, h2⟩
+    intro hm
+    obtain ⟨x, hx, hxe⟩ := List.mem_map.mp hm
+    have := h5 x hx
+    have hxe' : x.id = c.nextId := hxe
+    omega
+  · simp only [pushNew, List.map_cons, List.nodup_cons]
+    exact ⟨hk, h3⟩
+  · intro k'
+    simp only [pushNew]
+    by_cases hk' : k' = k
+    · subst hk'
+      rw [lookup_cons_eq, find_key_cons_eq (k := k') (a := ⟨c.nextId, k', v⟩) rfl]; rfl
+    · rw [lookup_cons_ne _ _ hk', find_key_cons_ne (show ({ id := c.nextId, key := k, val := v } : Elem).key ≠ k' from
+        fun h => hk' h.symm), h4 k']
+  · intro x hx
+    simp only [pushNew] at hx ⊢
+    rcases List.mem_cons.mp hx with rfl | hx'
+    · simp
+    · have := h5 x hx'; omega
+  · simp [pushNew, h6]
+
+theorem put_capacity (c : Cache) (k v : Nat) : (put c k v).capacity = c.capacity := by
+  unfold put
+  split
+  · rfl
+  · split
+    · split <;> rfl
+    · rfl
+
+theorem get_capacity (c : Cache) (k : Nat) : (get c k).2.capacity = c.capacity := by
+  unfold get
+  split
+  · split <;> rfl
+  · rfl
+
+theorem put_refines {c : Cache} (hI : Inv c) (hc : c.capacity < 2 ^ 63) (k v : Nat) :
+    abs (put c k v) = sput (abs c) k v ∧ Inv (put c k v) := by
+  cases hf : c.lruList.find? (·.key == k) with
+  | some e =>
+    have hek := (find_key_prop hf).1
+    rw [put_hit hI hf, sput_hit hf]
+    exact ⟨abs_touch c k e hek v, inv_touch hI hf v⟩
+  | none =>
+    have hnk : k ∉ c.lruList.map (·.key) := find_key_none hf
+    have hlen : (abs c).items.length = c.cache.length := by simp [abs, hI.size]
+    rw [sput_new hf]
+    by_cases hfull : c.cache.length ≥ c.capacity
+    · have hfs : (abs c).items.length ≥ c.capacity := by rw [hlen]; exact hfull
+      rw [if_pos hfs]
+      cases hlast : c.lruList.getLast? with
+      | none =>
+        have hnil : c.lruList = [] := by simpa using hlast
+        rw [put_new_empty hI hc hnil]
+        refine ⟨?_, ?_⟩
+        · rw [abs_pushNew]; simp [abs, hnil]
+        · apply inv_pushNew <;> simp
+      | some last =>
+        rw [put_new_evict hI hc hf hfull hlast]
+        have hlm : last ∈ c.lruList := List.mem_of_getLast? hlast
+        obtain ⟨ys, hys⟩ := List.getLast?_eq_some_iff.mp hlast
+        have hdl : c.lruList.dropLast = ys := by rw [hys]; simp
+        have hkn : (ys.map (·.key) ++ [last.key]).Nodup := by
+          have := hI.keys; rw [hys] at this; simpa using this
+        have hin : (ys.map (·.id) ++ [last.id]).Nodup := by
+          have := hI.ids; rw [hys] at this; simpa using this
+        have hlk : last.key ∉ ys.map (·.key) := by
+          intro hh
+          have := (List.nodup_append.mp hkn).2.2 _ hh last.key (by simp)
+          exact this rfl
+        have hnk' : k ∉ ys.map (·.key) := fun hh => hnk (by
+          rw [hys]; simp only [List.map_append, List.mem_append]; exact Or.inl hh)
+        have hfind_last : c.lruList.find? (·.key == last.key) = some last := by
+          rw [hys, List.find?_append]
+          have : ys.find? (·.key == last.key) = none := by
+            rw [List.find?_eq_none]
+            intro x hx hxk
+            exact hlk (List.mem_map.mpr ⟨x, hx, by simpa using hxk⟩)
+          rw [this]; simp
+        have hlook_last : c.cache.lookup last.key = some last.id := by
+          rw [hI.look, hfind_last]; rfl
+        rw [hdl]
+        refine ⟨?_, ?_⟩
+        · rw [abs_pushNew]
+          simp [abs, hys]
+        · apply inv_pushNew
+          · exact List.Pairwise.sublist (mapDelete_keys_sub _ _) hI.mapKeys
+          · exact (List.nodup_append.mp hin).1
+          · exact (List.nodup_append.mp hkn).1
+          · intro k'
+            rw [lookup_mapDelete]
+            by_cases hkl : k' = last.key
+            · subst hkl
+              have : ys.find? (·.key == last.key) = none := by
+                rw [List.find?_eq_none]
+                intro x hx hxk
+                exact hlk (List.mem_map.mpr ⟨x, hx, by simpa using hxk⟩)
+              simp [this]
+            · rw [if_neg hkl, hI.look k', hys, List.find?_append]
+              cases hd : ys.find? (·.key == k') with
+              | some x => simp
+              | none =>
+                have : last.key ≠ k' := fun h => hkl h.symm
+                simp [find_key_cons_ne this]
+          · intro x hx
+            exact hI.fresh x (by rw [hys]; exact List.mem_append_left _ hx)
+          · have h1 := length_mapDelete hI.mapKeys hlook_last
+            have h3 := hI.size
+            rw [hys] at h3
+            simp only [List.length_append, List.length_cons, List.length_nil] at h3
+            omega
+          · exact hnk'
+    · have hfs : ¬ ((abs c).items.length ≥ c.capacity) := by rw [hlen]; exact hfull
+      rw [if_neg hfs, put_new_room hI hc hf (by omega)]
+      refine ⟨rfl, ?_⟩
+      exact inv_pushNew c c.cache c.lruList k v hI.mapKeys hI.ids hI.keys hI.look hI.fresh hI.size hnk
+
+theorem step_refines {c : Cache} (hI : Inv c) (hc : c.capacity < 2 ^ 63) (op : Op) :
+    (step c op).1 = (sstep (abs c) op).1 ∧ abs (step c op).2 = (sstep (abs c) op).2 ∧
+      Inv (step c op).2 ∧ (step c op).2.capacity = c.capacity := by
+  cases op with
+  | get k =>
+    have := get_refines hI k
+    exact ⟨this.1, this.2.1, this.2.2, get_capacity c k⟩
+  | put k v =>
+    have := put_refines hI hc k v
+    exact ⟨rfl, this.1, this.2, put_capacity c k v⟩
+
+theorem run_refines (ops : List Op) : ∀ {c : Cache}, Inv c → c.capacity < 2 ^ 63 →
+    (run c ops).1 = (srun (abs c) ops).1 ∧ abs (run c ops).2 = (srun (abs c) ops).2 ∧ Inv (run c ops).2 := by
+  induction ops with
+  | nil => intro c hI _; exact ⟨rfl, rfl, hI⟩
+  | cons op ops ih =>
+    intro c hI hc
+    have h := step_refines hI hc op
+    have ih' := ih h.2.2.1 (by rw [h.2.2.2]; exact hc)
+    simp only [run, srun]
+    rw [← h.2.1]
+    refine ⟨?_, ih'.2.1, ih'.2.2⟩
+    rw [h.1, ih'.1]
+
+theorem new_capacity_lt {cap : Nat} (h : cap < 2 ^ 63) : (new cap).capacity < 2 ^ 63 := by
+  simp only [new, defaultCapacity]
+  split <;> omega
+
+theorem abs_new (cap : Nat) : abs (new cap) = snew cap := rfl
+
+/-- **C35_refines.**  For every capacity below 2^63 (0 meaning the default 20) and every
+    sequence of Get/Put, the map+list implementation returns exactly what the capacity-bounded
+    recency list returns, and its final content (recency order included) is the spec's. -/
+theorem C35_refines (cap : Nat) (hcap : cap < 2 ^ 63) (ops : List Op) :
+    (run (new cap) ops).1 = (srun (snew cap) ops).1 ∧
+    abs (run (new cap) ops).2 = (srun (snew cap) ops).2 := by
+  have := run_refines ops (inv_new cap) (new_capacity_lt hcap)
+  exact ⟨this.1, this.2.1⟩
+
+/-- the representation invariant (map ↔ list bijection, distinct keys, equal sizes) holds in
+    every reachable state -/
+theorem C35_invariant (cap : Nat) (hcap : cap < 2 ^ 63) (ops : List Op) :
+    Inv (run (new cap) ops).2 :=
+  (run_refines ops (inv_new cap) (new_capacity_lt hcap)).2.2
+
+/-- outside the proved region: a capacity ≥ 2^63 is reinterpreted as a negative `int`, the cache
+    then evicts on every insertion (it behaves as a capacity-1 cache) -/
+theorem C35_refines_counterexample :
+    abs (run (new (2 ^ 63)) [.put 1 1, .put 2 2]).2 ≠ (srun (snew (2 ^ 63)) [.put 1 1, .put 2 2]).2 := by
+  decide
+
+example : (run (new 2) [.put 1 5, .put 2 6, .get 1, .put 3 7, .get 2, .get 1]).1 = [0, 0, 5, 0, 0, 5] := by decide
+
+/-! ### capacity bound -/
+
+theorem step_length {c : Cache} (hI : Inv c) (hc : c.capacity < 2 ^ 63) (h1 : 1 ≤ c.capacity)
+    (hb : c.lruList.length ≤ c.capacity) (op : Op) :
+    (step c op).2.lruList.length ≤ c.capacity := by
+  have hsz := hI.size
+  cases op with
+  | get k =>
+    simp only [step]
+    cases hf : c.lruList.find? (·.key == k) with
+    | none => rw [get_miss hI hf]; exact hb
+    | some e =>
+      rw [get_hit hI hf]
+      have := (inv_touch hI hf e.val).size
+      simp only [List.length_cons] at this ⊢
+      omega
+  | put k v =>
+    simp only [step]
+    cases hf : c.lruList.find? (·.key == k) with
+    | some e =>
+      rw [put_hit hI hf]
+      have := (inv_touch hI hf v).size
+      simp only [List.length_cons] at this ⊢
+      omega
+    | none =>
+      by_cases hfull : c.cache.length ≥ c.capacity
+      · cases hlast : c.lruList.getLast? with
+        | none =>
+          have hnil : c.lruList = [] := by simpa using hlast
+          rw [put_new_empty hI hc hnil]
+          simpa [pushNew] using h1
+        | some last =>
+          rw [put_new_evict hI hc hf hfull hlast]
+          have hpos : 0 < c.lruList.length := List.length_pos_of_mem (List.mem_of_getLast? hlast)
+          simp only [pushNew, List.length_cons, List.length_dropLast]
+          omega
+      · rw [put_new_room hI hc hf (by omega)]
+        simp only [pushNew, List.length_cons]
+        omega
+
+theorem run_length (ops : List Op) : ∀ {c : Cache}, Inv c → c.capacity < 2 ^ 63 → 1 ≤ c.capacity →
+    c.lruList.length ≤ c.capacity → (run c ops).2.lruList.length ≤ c.capacity := by
+  induction ops with
+  | nil => intro c _ _ _ hb; exact hb
+  | cons op ops ih =>
+    intro c hI hc h1 hb
+    have h := step_refines hI hc op
+    have hl := step_length hI hc h1 hb op
+    simp only [run]
+    have := ih h.2.2.1 (by rw [h.2.2.2]; exact hc) (by rw [h.2.2.2]; exact h1) (by rw [h.2.2.2]; exact hl)
+    rw [h.2.2.2] at this
+    exact this
+
+theorem new_capacity_pos (cap : Nat) : 1 ≤ (new cap).capacity := by
+  simp only [new, defaultCapacity]
+  split <;> omega
+
+/-- **C35_capacity.**  In every reachable state the cache holds at most `capacity` entries
+    (list and map alike), where capacity 0 stands for the default 20. -/
+theorem C35_capacity (cap : Nat) (hcap : cap < 2 ^ 63) (ops : List Op) :
+    (run (new cap) ops).2.lruList.length ≤ (if cap < 1 then 20 else cap) ∧
+    (run (new cap) ops).2.cache.length ≤ (if cap < 1 then 20 else cap) := by
+  have h := run_length ops (inv_new cap) (new_capacity_lt hcap) (new_capacity_pos cap) (by simp [new])
+  have hs := (C35_invariant cap hcap ops).size
+  have hcapeq : (new cap).capacity = (if cap < 1 then 20 else cap) := rfl
+  rw [hcapeq] at h
+  exact ⟨h, by rw [hs]; exact h⟩
+
+/-! ### the evicted entry is the least recently used one -/
+
+def Op.key : Op → Nat
+  | .get k => k
+  | .put k _ => k
+
+/-- clock and per-key time stamp of the last operation that names the key (hit or miss) -/
+def touch (tm : Nat × (Nat → Nat)) (op : Op) : Nat × (Nat → Nat) :=
+  (tm.1 + 1, fun k => if k = op.key then tm.1 + 1 else tm.2 k)
+
+/-- `lastTouch ops k` = 1-based position of the last operation of `ops` naming `k`; 0 = never.
+    Purely syntactic: it does not look at the cache. -/
+def lastTouch (ops : List Op) (k : Nat) : Nat := (ops.foldl touch (0, fun _ => 0)).2 k
+
+def sstate (s : SCache) (ops : List Op) : SCache := ops.foldl (fun s op => (sstep s op).2) s
+
+theorem srun_state (ops : List Op) : ∀ s, (srun s ops).2 = sstate s ops := by
+  induction ops with
+  | nil => intro s; rfl
+  | cons op ops ih => intro s; simp only [srun, sstate, List.foldl_cons]; exact ih _
+
+/-- recency order = order of time stamps, and stamps never exceed the clock -/
+def Stamped (s : SCache) (tm : Nat × (Nat → Nat)) : Prop :=
+  s.keys.Pairwise (fun a b => tm.2 a > tm.2 b) ∧ ∀ k, tm.2 k ≤ tm.1
+
+theorem keys_cons_filter (s : SCache) (k v : Nat) :
+    ({ s with items := (k, v) :: s.items.filter (·.1 != k) } : SCache).keys = k :: s.keys.filter (· != k) := by
+  simp only [SCache.keys, List.map_cons, List.filter_map]
+  rfl
+
+theorem stamped_front {keys : List Nat} {tm : Nat × (Nat → Nat)} (op : Op) (l : List Nat)
+    (hs : keys.Pairwise (fun a b => tm.2 a > tm.2 b)) (hle : ∀ k, tm.2 k ≤ tm.1)
+    (hsub : l.Sublist keys) (hnk : op.key ∉ l) :
+    (op.key :: l).Pairwise (fun a b => (touch tm op).2 a > (touch tm op).2 b) := by
+  rw [List.pairwise_cons]
+  constructor
+  · intro a ha
+    have hne : a ≠ op.key := fun h => hnk (h ▸ ha)
+    simp only [touch, hne, if_false, if_true]
+    have := hle a
+    omega
+  · have h1 := List.Pairwise.sublist hsub hs
+    apply List.Pairwise.imp_of_mem _ h1
+    intro a b ha hb hab
+    have hna : a ≠ op.key := fun h => hnk (h ▸ ha)
+    have hnb : b ≠ op.key := fun h => hnk (h ▸ hb)
+    simp only [touch, hna, hnb, if_false]
+    exact hab
+
+theorem touch_le (tm : Nat × (Nat → Nat)) (op : Op) (hle : ∀ k, tm.2 k ≤ tm.1) :
+    ∀ k, (touch tm op).2 k ≤ (touch tm op).1 := by
+  intro k
+  simp only [touch]
+  split
+  · omega
+  · have := hle k; omega
+
+theorem not_mem_filter_ne (l : List Nat) (k : Nat) : k ∉ l.filter (· != k) := by
+  intro h
+  have := (List.mem_filter.mp h).2
+  simp at this
+
+theorem stamped_step {s : SCache} {tm : Nat × (Nat → Nat)} (h : Stamped s tm) (op : Op) :
+    Stamped (sstep s op).2 (touch tm op) := by
+  obtain ⟨hs, hle⟩ := h
+  refine ⟨?_, touch_le tm op hle⟩
+  cases op with
+  | get k =>
+    simp only [sstep, sget]
+    cases hl : s.items.lookup k with
+    | none =>
+      have hnk : k ∉ s.keys := by
+        intro hm
+        obtain ⟨w, hw⟩ := lookup_some_of_mem hm
+        rw [hl] at hw; cases hw
+      apply List.Pairwise.imp_of_mem _ hs
+      intro a b ha hb hab
+      have hna : a ≠ k := fun h => hnk (h ▸ ha)
+      have hnb : b ≠ k := fun h => hnk (h ▸ hb)
+      simp only [touch, Op.key, hna, hnb, if_false]
+      exact hab
+    | some v =>
+      simp only
+      rw [keys_cons_filter]
+      exact stamped_front (.get k) _ hs hle List.filter_sublist (not_mem_filter_ne _ _)
+  | put k v =>
+    simp only [sstep, sput]
+    by_cases hm : k ∈ s.keys
+    · rw [if_pos hm, keys_cons_filter]
+      exact stamped_front (.put k v) _ hs hle List.filter_sublist (not_mem_filter_ne _ _)
+    · rw [if_neg hm]
+      simp only [SCache.keys, List.map_cons]
+      split
+      · rw [List.map_dropLast]
+        exact stamped_front (.put k v) _ hs hle (List.dropLast_sublist _)
+          (fun h => hm ((List.dropLast_sublist _).subset h))
+      · exact stamped_front (.put k v) _ hs hle (List.Sublist.refl _) hm
+
+theorem stamped_run (ops : List Op) : ∀ (s : SCache) (tm : Nat × (Nat → Nat)), Stamped s tm →
+    Stamped (sstate s ops) (ops.foldl touch tm) := by
+  induction ops with
+  | nil => intro s tm h; exact h
+  | cons op ops ih =>
+    intro s tm h
+    simp only [sstate, List.foldl_cons]
+    exact ih _ _ (stamped_step h op)
+
+/-- in every reachable state the recency list is sorted by strictly decreasing `lastTouch` -/
+theorem C35_recency_order (cap : Nat) (ops : List Op) :
+    (srun (snew cap) ops).2.keys.Pairwise (fun a b => lastTouch ops a > lastTouch ops b) := by
+  rw [srun_state]
+  exact (stamped_run ops (snew cap) (0, fun _ => 0) ⟨by simp [snew, SCache.keys], fun _ => Nat.le_refl _⟩).1
+
+theorem run_capacity (ops : List Op) : ∀ (c0 : Cache), (run c0 ops).2.capacity = c0.capacity := by
+  induction ops with
+  | nil => intro c0; rfl
+  | cons op ops ih =>
+    intro c0
+    simp only [run]
+    rw [ih]
+    cases op with
+    | get k => exact get_capacity c0 k
+    | put k v => exact put_capacity c0 k v
+
+/-- **C35_evicts_lru.**  Putting a new key into a full cache removes exactly one entry, the
+    `victim`, and the victim is the present key whose last use (last operation naming it, as
+    read off the operation history, independently of the cache) is the oldest; every other
+    entry stays, in the same recency order, behind the new key.  Stated on the implementation
+    model (`run`, `put`) for every capacity below 2^63 and every history. -/
+theorem C35_evicts_lru (cap : Nat) (hcap : cap < 2 ^ 63) (ops : List Op) (k v : Nat) :
+    let c := (run (new cap) ops).2
+    k ∉ (abs c).keys → (abs c).items.length ≥ c.capacity →
+    ∃ victim, (abs c).keys.getLast? = some victim ∧
+      (∀ k' ∈ (abs c).keys, k' ≠ victim → lastTouch ops victim < lastTouch ops k') ∧
+      (abs (put c k v)).keys = k :: (abs c).keys.dropLast ∧
+      victim ∉ (abs (put c k v)).keys := by
+  intro c hk hfull
+  have hI : Inv c := C35_invariant cap hcap ops
+  have hceq : c.capacity = (new cap).capacity := run_capacity ops (new cap)
+  have hcc : c.capacity < 2 ^ 63 := by rw [hceq]; exact new_capacity_lt hcap
+  have hpos : 1 ≤ c.capacity := by rw [hceq]; exact new_capacity_pos cap
+  have hsorted : (abs c).keys.Pairwise (fun a b => lastTouch ops a > lastTouch ops b) := by
+    have := C35_recency_order cap ops
+    rw [← (C35_refines cap hcap ops).2] at this
+    exact this
+  have hne : (abs c).items ≠ [] := by
+    intro h
+    rw [h] at hfull
+    simp at hfull
+    omega
+  have hkne : (abs c).keys ≠ [] := by
+    simpa [SCache.keys] using hne
+  obtain ⟨victim, hv⟩ : ∃ victim, (abs c).keys.getLast? = some victim := by
+    cases hg : (abs c).keys.getLast? with
+    | none => exact absurd (List.getLast?_eq_none_iff.mp hg) hkne
+    | some x => exact ⟨x, rfl⟩
+  obtain ⟨ys, hys⟩ := List.getLast?_eq_some_iff.mp hv
+  have hdl : (abs c).keys.dropLast = ys := by rw [hys]; simp
+  have hpw := hsorted
+  rw [hys, List.pairwise_append] at hpw
+  have hput : (abs (put c k v)).keys = k :: (abs c).keys.dropLast := by
+    rw [(put_refines hI hcc k v).1]
+    have hfull' : (abs c).items.length ≥ (abs c).cap := hfull
+    simp only [sput, hk, if_false, hfull', if_true]
+    simp [SCache.keys, List.map_dropLast]
+  refine ⟨victim, hv, ?_, hput, ?_⟩
+  · intro k' hk' hne'
+    rw [hys] at hk'
+    rcases List.mem_append.mp hk' with h | h
+    · exact hpw.2.2 k' h victim (by simp)
+    · simp at h; exact absurd h hne'
+  · rw [hput, hdl]
+    intro hm
+    rcases List.mem_cons.mp hm with h | h
+    · apply hk; rw [hys, ← h]; simp
+    · have := hpw.2.2 victim h victim (by simp)
+      omega
+
+/-- non-vacuity: a full cache of capacity 2 with history put 1, put 2, get 1 — putting 3 evicts 2 -/
+example : (abs (put (run (new 2) [.put 1 5, .put 2 6, .get 1]).2 3 7)).keys = [3, 1] := by decide
+
+/-! ### concurrent part: lock table + monitor theorem -/
+
+open Gossamer.Monitor in
+/-- the lock table as Monitor methods -/
+def table : List Monitor.Method := (Monitor.ofTriples lockTable).getD []
+
+/-- **C35_race_free.**  Over the lock table of `LRUCache` (the harness re-extracts it from
+    lru_cache.go on every run and compares it with `lockTable`): every method that writes the
+    guarded fields holds the exclusive lock and every reader holds a lock, hence no two
+    conflicting methods can be inside their critical sections together. -/
+theorem C35_race_free :
+    table.length = 2 ∧ Monitor.disciplined table = true ∧ Monitor.raceFree table = true := by
+  decide
+
+/-- the table before the repair (Get under RLock) is rejected by the same check -/
+theorem C35_race_free_counterexample :
+    Monitor.raceFree [⟨"Get", .rlock, .writes⟩, ⟨"Put", .lock, .writes⟩] = false := by decide
+
+def Op.method : Op → String
+  | .get _ => "Get"
+  | .put _ _ => "Put"
+
+def modeOf (name : String) : Monitor.Mode :=
+  match table.find? (·.name == name) with
+  | some m => m.mode
+  | none => .none
+
+/-- an invocation of a cache method: it takes the lock the table says and runs its body (one
+    micro-step here; `Monitor.linearizable` holds for any split of a body into micro-steps) -/
+def invOf (op : Op) : Monitor.Inv Cache Nat :=
+  { mode := modeOf op.method, body := [fun c _ => ((step c op).2, (step c op).1)], init := 0 }
+
+theorem modeOf_get : modeOf "Get" = .lock := by decide
+theorem modeOf_put : modeOf "Put" = .lock := by decide
+
+theorem invOf_mode (op : Op) : (invOf op).mode = .lock := by
+  cases op with
+  | get k => exact modeOf_get
+  | put k v => exact modeOf_put
+
+theorem seqRun_invOf (calls : Nat → Op) (order : List Nat) : ∀ c : Cache,
+    Monitor.seqRun (fun i => invOf (calls i)) c order =
+      ((run c (order.map calls)).2, order.zip (run c (order.map calls)).1) := by
+  induction order with
+  | nil => intro c; rfl
+  | cons i is ih =>
+    intro c
+    simp only [Monitor.seqRun, List.map_cons, run, List.zip_cons_cons]
+    have hb : Monitor.runBody (invOf (calls i)).body c (invOf (calls i)).init =
+        ((step c (calls i)).2, (step c (calls i)).1) := rfl
+    rw [hb, ih]
+
+/-- **C35_linearizable.**  Any number of goroutines call Get/Put (`calls i` is the i-th
+    invocation) on a cache created with capacity `cap`; each invocation acquires the lock the
+    lock table assigns to its method, runs, and releases; acquisitions obey the RWMutex rules;
+    the interleaving is otherwise arbitrary.  Whenever no invocation is in progress, the cache
+    state and the value returned to every invocation are exactly those of the sequential model
+    run of the invocations in release order, hence (C35_refines) those of the capacity-bounded
+    recency list.  Release order extends real-time order. -/
+theorem C35_linearizable (cap : Nat) (hcap : cap < 2 ^ 63) (calls : Nat → Op)
+    (es : List Monitor.Ev) (c : Monitor.Cfg Cache Nat)
+    (hs : Monitor.Steps (fun i => invOf (calls i)) (Monitor.Cfg.init (new cap)) es c)
+    (hq : ∀ j, c.fl j = none) :
+    let order := c.log.reverse.map (·.1)
+    c.shared = (run (new cap) (order.map calls)).2 ∧
+    c.log.reverse = order.zip (run (new cap) (order.map calls)).1 ∧
+    (run (new cap) (order.map calls)).1 = (srun (snew cap) (order.map calls)).1 ∧
+    abs c.shared = (srun (snew cap) (order.map calls)).2 := by
+  intro order
+  have hp : Monitor.ReadersPure (fun i => invOf (calls i)) := by
+    intro i hr
+    rw [invOf_mode] at hr
+    cases hr
+  have h := Monitor.linearizable _ hp (new cap) es c hs hq
+  rw [seqRun_invOf] at h
+  have h1 : (run (new cap) (order.map calls)).2 = c.shared := congrArg Prod.fst h
+  have h2 : order.zip (run (new cap) (order.map calls)).1 = c.log.reverse := congrArg Prod.snd h
+  have hr := C35_refines cap hcap (order.map calls)
+  exact ⟨h1.symm, h2.symm, hr.1, by rw [← h1]; exact hr.2⟩
+
+/-- two invocations are never inside the cache at the same time (both methods take the
+    exclusive lock) -/
+theorem C35_mutual_exclusion (cap : Nat) (calls : Nat → Op)
+    (es : List Monitor.Ev) (c : Monitor.Cfg Cache Nat)
+    (hs : Monitor.Steps (fun i => invOf (calls i)) (Monitor.Cfg.init (new cap)) es c)
+    (i j : Nat) (hi : c.fl i ≠ none) (hj : c.fl j ≠ none) : i = j := by
+  apply Classical.byContradiction
+  intro hij
+  have hp : Monitor.ReadersPure (fun i => invOf (calls i)) := by
+    intro i hr
+    rw [invOf_mode] at hr
+    cases hr
+  have := (Monitor.no_conflict _ hp (new cap) es c hs i j hi hj hij).1
+  rw [invOf_mode] at this
+  cases this
+
 end Gossamer.C35
